@@ -89,20 +89,20 @@ RELATIONAL_OPERATOR: EQ_OPERATOR | NEQ_OPERATOR | COMP_OPERATOR | IN_OPERATOR
 EQ_OPERATOR: "="
 NEQ_OPERATOR: "!="
 COMP_OPERATOR: /<=?/ | />=?/
-IN_OPERATOR.2: "in"
+IN_OPERATOR.2: /in\b/
 
-NOT_OPERATOR.3: "not"
+NOT_OPERATOR.3: /not\b/
 IF_OPERATOR.3: IMPLIES_OPERATOR | IFF_OPERATOR
-IMPLIES_OPERATOR.3: "implies"
-IFF_OPERATOR.3: "iff"
-OR_OPERATOR.3: "or"
-AND_OPERATOR.3: "and"
+IMPLIES_OPERATOR.3: /implies\b/
+IFF_OPERATOR.3: /iff\b/
+OR_OPERATOR.3: /or\b/
+AND_OPERATOR.3: /and\b/
 
 QUANT_OPERATOR.4: ALL_OPERATOR | SOME_OPERATOR
-ALL_OPERATOR.4: "forall"
-SOME_OPERATOR.4: "exists"
+ALL_OPERATOR.4: /forall\b/
+SOME_OPERATOR.4: /exists\b/
 
-CONSTANT.5: "PI" | "INF" | "NAN" | "E"
+CONSTANT.5: /PI\b/ | /INF\b/ | /NAN\b/ | /E\b/
 ADD_OPERATOR: "+" | "-"
 MULT_OPERATOR: "*" | "/"
 POWER_OPERATOR: "**"
@@ -113,26 +113,26 @@ L_RANGE_INC: "["
 R_RANGE_EXC: "]!"
 R_RANGE_INC: "]"
 
-_KW_TO.4: "to"
-_KW_IN.4: "in"
-_KW_AS.4: "as"
-_KW_OR.4: "or"
-_KW_WITHIN.4: "within"
-_KW_NO.4: "no"
-_KW_SOME.4: "some"
-_KW_REQUIRES.4: "requires"
-_KW_CAUSES.4: "causes"
-_KW_FORBIDS.4: "forbids"
-_KW_AFTER.4: "after"
-_KW_UNTIL.4: "until"
-_KW_GLOBALLY.4: "globally"
+_KW_TO.4: /to\b/
+_KW_IN.4: /in\b/
+_KW_AS.4: /as\b/
+_KW_OR.4: /or\b/
+_KW_WITHIN.4: /within\b/
+_KW_NO.4: /no\b/
+_KW_SOME.4: /some\b/
+_KW_REQUIRES.4: /requires\b/
+_KW_CAUSES.4: /causes\b/
+_KW_FORBIDS.4: /forbids\b/
+_KW_AFTER.4: /after\b/
+_KW_UNTIL.4: /until\b/
+_KW_GLOBALLY.4: /globally\b/
 
 CHANNEL_NAME: /[\/~]?[a-zA-Z][0-9a-zA-Z_]*(\/[a-zA-Z][0-9a-zA-Z_]*)*/
 
 VAR_REF: "@" CNAME
 
-TIME_UNIT: "s" | "ms"
-FREQ_UNIT: "hz"
+TIME_UNIT: /s\b/ | /ms\b/
+FREQ_UNIT: /hz\b/
 
 %import common.CNAME
 %import common.INT
@@ -147,13 +147,13 @@ FREQ_UNIT: "hz"
 HPL_GRAMMAR = r"""
 hpl_file: _list_of_properties
 
-_list_of_properties: (_list_of_properties)? hpl_property
+_list_of_properties: _list_of_properties? hpl_property
 
 hpl_property: [metadata] _scope ":" _pattern
 
 metadata: _metadata_items
 
-_metadata_items: (_metadata_items)? "#" _metadata_item
+_metadata_items: _metadata_items? "#" _metadata_item
 
 _metadata_item: metadata_id
               | metadata_title
@@ -297,20 +297,20 @@ RELATIONAL_OPERATOR: EQ_OPERATOR | NEQ_OPERATOR | COMP_OPERATOR | IN_OPERATOR
 EQ_OPERATOR: "="
 NEQ_OPERATOR: "!="
 COMP_OPERATOR: /<=?/ | />=?/
-IN_OPERATOR.2: "in"
+IN_OPERATOR.2: /in\b/
 
-NOT_OPERATOR.3: "not"
+NOT_OPERATOR.3: /not\b/
 IF_OPERATOR.3: IMPLIES_OPERATOR | IFF_OPERATOR
-IMPLIES_OPERATOR.3: "implies"
-IFF_OPERATOR.3: "iff"
-OR_OPERATOR.3: "or"
-AND_OPERATOR.3: "and"
+IMPLIES_OPERATOR.3: /implies\b/
+IFF_OPERATOR.3: /iff\b/
+OR_OPERATOR.3: /or\b/
+AND_OPERATOR.3: /and\b/
 
 QUANT_OPERATOR.4: ALL_OPERATOR | SOME_OPERATOR
-ALL_OPERATOR.4: "forall"
-SOME_OPERATOR.4: "exists"
+ALL_OPERATOR.4: /forall\b/
+SOME_OPERATOR.4: /exists\b/
 
-CONSTANT.5: "PI" | "INF" | "NAN" | "E"
+CONSTANT.5: /PI\b/ | /INF\b/ | /NAN\b/ | /E\b/
 ADD_OPERATOR: "+" | "-"
 MULT_OPERATOR: "*" | "/"
 POWER_OPERATOR: "**"
@@ -321,26 +321,26 @@ L_RANGE_INC: "["
 R_RANGE_EXC: "]!"
 R_RANGE_INC: "]"
 
-_KW_TO.4: "to"
-_KW_IN.4: "in"
-_KW_AS.4: "as"
-_KW_OR.4: "or"
-_KW_WITHIN.4: "within"
-_KW_NO.4: "no"
-_KW_SOME.4: "some"
-_KW_REQUIRES.4: "requires"
-_KW_CAUSES.4: "causes"
-_KW_FORBIDS.4: "forbids"
-_KW_AFTER.4: "after"
-_KW_UNTIL.4: "until"
-_KW_GLOBALLY.4: "globally"
+_KW_TO.4: /to\b/
+_KW_IN.4: /in\b/
+_KW_AS.4: /as\b/
+_KW_OR.4: /or\b/
+_KW_WITHIN.4: /within\b/
+_KW_NO.4: /no\b/
+_KW_SOME.4: /some\b/
+_KW_REQUIRES.4: /requires\b/
+_KW_CAUSES.4: /causes\b/
+_KW_FORBIDS.4: /forbids\b/
+_KW_AFTER.4: /after\b/
+_KW_UNTIL.4: /until\b/
+_KW_GLOBALLY.4: /globally\b/
 
 CHANNEL_NAME: /[\/~]?[a-zA-Z][0-9a-zA-Z_]*(\/[a-zA-Z][0-9a-zA-Z_]*)*/
 
 VAR_REF: "@" CNAME
 
-TIME_UNIT: "s" | "ms"
-FREQ_UNIT: "hz"
+TIME_UNIT: /s\b/ | /ms\b/
+FREQ_UNIT: /hz\b/
 
 %import common.CNAME
 %import common.INT
